@@ -11,7 +11,7 @@
    - what the converter prints for an integer is read back by IF and set /A as that integer (C05_number_roundtrip).
    The statement over whole programs (C05_full_statement: the script's output under the model equals the reference
    semantics and the Bash run) is decided on generated programs by every run of the check, not proved. *)
-From Verif Require Import Base.Bytestr Base.DecFacts Front.Ast Back.Transpile Back.BatchConv Back.TraverseInv Back.BatchLabels Sem.Src Cmd.CmdModel Cmd.CmdFacts.
+From Verif Require Import Base.Bytestr Base.DecFacts Front.Ast Back.Transpile Back.BatchConv Back.BatchSyntax Back.TraverseInv Back.BatchLabels Sem.Src Cmd.CmdModel Cmd.CmdFacts.
 From Coq Require Import ZArith.
 Open Scope N_scope.
 
@@ -43,12 +43,12 @@ Print Assumptions C05_label_found.
 
 (* Label allocation (the state this property is anchored in: ifCounter, forCounter, endLabels, ifs): for EVERY program
    whose function names do not start with an underscore, each label of the allocated families _i<n>, _f<n>, _e<n> is
-   defined at most once in the code of the emitted script -- any nesting and sequencing of loops and conditionals, any
+   defined at most once in the whole emitted script (start lines, helper routines, functions, top level, end lines) -- any nesting and sequencing of loops and conditionals, any
    number of functions -- and the labels the counters would hand out next are unused. *)
 Theorem C05_labels_unique : forall body script st,
   emit_batch body = TOk script st -> names_ok_all plain_name body = true ->
-  forall c k, fam c -> (cnt (lab c k) (concat (rev (w_funcs_code st)) ++ w_global st) <= 1)%nat.
-Proof. exact batch_family_labels_unique. Qed.
+  forall c k, fam c -> (cnt (lab c k) (batch_lines st) <= 1)%nat.
+Proof. exact batch_script_family_labels_unique. Qed.
 Print Assumptions C05_labels_unique.
 
 Theorem C05_next_labels_fresh : forall body script st,
